@@ -29,6 +29,8 @@ type c08Func struct {
 	n, s   []byte
 	ds     byte
 	prefix []byte // bytepad(encode_string(N)||encode_string(S), rate) for cSHAKE
+	// clobber: what the caller does to the N and S buffers right after the constructor returned
+	clobber int
 }
 
 func (f c08Func) fresh() hash.Hash {
@@ -55,10 +57,17 @@ func (f c08Func) fresh() hash.Hash {
 		}
 		return sha3.NewShake256()
 	default:
+		// the constructor gets the caller's own buffers, which the caller then reuses
+		nb, sb := append([]byte{}, f.n...), append([]byte{}, f.s...)
+		var h sha3.ShakeHash
 		if f.bits == 128 {
-			return sha3.NewCShake128(f.n, f.s)
+			h = sha3.NewCShake128(nb, sb)
+		} else {
+			h = sha3.NewCShake256(nb, sb)
 		}
-		return sha3.NewCShake256(f.n, f.s)
+		clobber(nb, f.clobber)
+		clobber(sb, f.clobber)
+		return h
 	}
 }
 
@@ -82,6 +91,10 @@ func c08NS(rt *rapid.T, label string) ([]byte, string) {
 		// lengths where left_encode(8*len) changes width (32 bytes = 256 bits needs two bytes)
 		return gen.RandBytes(rt, label, rapid.SampledFrom([]int{31, 32, 33, 130, 135, 136, 137, 163, 164, 165, 168}).Draw(rt, label+"Len")), "encoding-edge"
 	default:
+		if rapid.IntRange(0, 5).Draw(rt, label+"Long") == 0 {
+			// 8192 bytes = 65536 bits: left_encode needs three length bytes from here on
+			return gen.RandBytes(rt, label, rapid.SampledFrom([]int{8190, 8191, 8192, 8193}).Draw(rt, label+"Len")), "encoding-edge-8192"
+		}
 		return gen.RandBytes(rt, label, rapid.IntRange(0, 300).Draw(rt, label+"Len")), "uniform"
 	}
 }
@@ -106,6 +119,7 @@ func c08Draw(rt *rapid.T) (c08Func, string) {
 			f.ds = 0x04
 			f.prefix = ref.BytePad(append(ref.EncodeString(n), ref.EncodeString(s)...), f.rate)
 		}
+		f.clobber = rapid.IntRange(0, 3).Draw(rt, "clobberInputs")
 		return f, "N=" + nc + ",S=" + sc
 	}
 }
@@ -435,6 +449,17 @@ func TestC08(t *testing.T) {
 				err = y.read(rapid.IntRange(1, f.rate+5).Draw(rt, "closingRead"))
 			} else {
 				err = y.sum(nil)
+				if err == nil && rapid.Bool().Draw(rt, "closingReset") {
+					// Reset (also on clones) must give the function the object was constructed with
+					y.reset()
+					if err = y.write(pool[:rapid.IntRange(0, 200).Draw(rt, "closingResetLen")]); err == nil {
+						err = y.sum(nil)
+					}
+					if err == nil && f.kind != "sha3" && rapid.Bool().Draw(rt, "closingResetRead") {
+						err = y.read(rapid.IntRange(1, f.rate+5).Draw(rt, "closingRead2"))
+					}
+					c.Class("closing:reset-reuse")
+				}
 			}
 			if err != nil {
 				fail(fmt.Errorf("closing check on copy #%d: %w", li, err))
@@ -529,6 +554,7 @@ func TestC08(t *testing.T) {
 		c.Case(nontrivial, fmt.Sprintf("%s|%s|m%s|%s", f.name, nsClass, gen.LenClass(n0, f.rate), x.shape.String()), f.name, lc, fc, "msg:"+gen.LenClass(n0, f.rate))
 		if nsClass != "" {
 			c.Class("cshake:" + nsClass)
+			c.Class("cshake:" + clobberNames[f.clobber])
 		}
 		if c.WantSample() {
 			c.Sample(map[string]any{"func": f.name, "N": ev.Hex(f.n), "S": ev.Hex(f.s), "initial_msg_len": n0, "absorbed": len(x.msg), "squeezed": x.squeezed, "history": x.shape.String()})
@@ -658,6 +684,155 @@ func TestC08(t *testing.T) {
 		}
 	}
 	c.Exhaustive("Clone interleavings: {SHAKE128, SHAKE256, cSHAKE128, cSHAKE256} x clone position {0,1,rate/2,rate-1,rate,rate+3} x 6 advance orders (source first, clone first, alternating, far ahead, clone of clone, absorbing copies with different suffixes)", nInter)
+
+	// constructor inputs reused by the caller: cSHAKE N/S buffers overwritten right after construction, then
+	// Reset / Clone+Reset / Reset of an absorbing clone, each followed by Write, Sum and Read
+	{
+		nCl := 0
+		for _, bits := range []int{128, 256} {
+			for mode := 0; mode <= 3; mode++ {
+				for ni, ns := range [][2][]byte{{[]byte("N"), []byte("S")}, {nil, []byte("only S")}, {[]byte("only N"), nil}, {seqBytes(200), seqBytes(33)}} {
+					item++
+					if !ev.Mine(item) {
+						continue
+					}
+					rate := 200 - bits/4
+					f := c08Func{name: fmt.Sprintf("cSHAKE%d", bits), kind: "cshake", bits: bits, rate: rate, size: bits / 4, n: ns[0], s: ns[1], ds: 0x04, clobber: mode,
+						prefix: ref.BytePad(append(ref.EncodeString(ns[0]), ref.EncodeString(ns[1])...), rate)}
+					x := &c08Inst{f: f, h: f.fresh(), shape: &strings.Builder{}}
+					m1, m2 := seqBytes(50+ni), seqBytes(3*rate + ni)[rate:]
+					err := x.write(m1)
+					if err == nil {
+						err = x.sum(nil)
+					}
+					var y, z *c08Inst
+					if err == nil {
+						y, err = x.clone() // absorbing clone
+					}
+					if err == nil {
+						x.reset()
+						err = x.write(m2)
+					}
+					if err == nil {
+						err = x.sum(nil)
+					}
+					if err == nil {
+						err = x.read(rate + 3)
+					}
+					if err == nil {
+						y.reset()
+						if err = y.write(m2[:7]); err == nil {
+							err = y.sum(nil)
+						}
+					}
+					if err == nil {
+						z, err = y.clone()
+					}
+					if err == nil {
+						z.reset()
+						err = z.read(40)
+					}
+					if err != nil {
+						what := fmt.Sprintf("%s N=%x S=%x, caller's N/S buffers %s after construction, history Write Sum Clone Reset Write Sum Read / clone: Reset Write Sum Clone Reset Read: %v", f.name, ns[0], ns[1], clobberNames[mode], err)
+						c.Violation(what, "")
+						t.Fatalf("VF-VIOLATION: property=C08 %s", what)
+					}
+					c.Case(true, fmt.Sprintf("clobber|%d|%d|%d", bits, mode, ni), "enum:cshake-"+clobberNames[mode])
+					nCl++
+				}
+			}
+		}
+		c.Exhaustive("cSHAKE128/256 x caller overwrites N/S after construction {kept, zeroed, 0xff, other value} x 4 (N,S) shapes: Reset, Clone->Reset, clone of clone->Reset with Write/Sum/Read", nCl)
+	}
+
+	// size thresholds: one big Write (2^12, 2^16, 2^17 +- 1, 2^20) after a pre-fill of 0, 1 or rate-1 bytes, then Sum at
+	// once or after a small write; one big Read (2^16 +- 1, 2^20) after a first read of 0, 1 or rate-1 bytes
+	{
+		pool := seqBytes(1<<20 + 4096)
+		long := seqBytes(8193)
+		funcs := []c08Func{
+			{name: "SHA3-224", kind: "sha3", bits: 224, rate: 144, size: 28, ds: 0x06},
+			{name: "SHA3-256", kind: "sha3", bits: 256, rate: 136, size: 32, ds: 0x06},
+			{name: "SHA3-384", kind: "sha3", bits: 384, rate: 104, size: 48, ds: 0x06},
+			{name: "SHA3-512", kind: "sha3", bits: 512, rate: 72, size: 64, ds: 0x06},
+			{name: "LegacyKeccak-256", kind: "keccak", bits: 256, rate: 136, size: 32, ds: 0x01},
+			{name: "LegacyKeccak-512", kind: "keccak", bits: 512, rate: 72, size: 64, ds: 0x01},
+			{name: "SHAKE128", kind: "shake", bits: 128, rate: 168, size: 32, ds: 0x1f},
+			{name: "SHAKE256", kind: "shake", bits: 256, rate: 136, size: 64, ds: 0x1f},
+			{name: "cSHAKE128", kind: "cshake", bits: 128, rate: 168, size: 32, ds: 0x04, n: long[:8192], s: long[:32], prefix: ref.BytePad(append(ref.EncodeString(long[:8192]), ref.EncodeString(long[:32])...), 168)},
+			{name: "cSHAKE256", kind: "cshake", bits: 256, rate: 136, size: 64, ds: 0x04, n: long[:31], s: long[:8193], prefix: ref.BytePad(append(ref.EncodeString(long[:31]), ref.EncodeString(long[:8193])...), 136)},
+		}
+		nBig := 0
+		for _, f := range funcs {
+			sizes := []int{4096, 4097, 4095, 1 << 16, 1<<16 + 1, 1<<16 - 1, 1 << 17, 1 << 20}
+			if ev.Thorough() {
+				sizes = append(sizes, 1<<17+1, 1<<17-1, 3<<16, 1<<20+1, 1<<20-1, 8192, 16384, 32768, 1<<16+f.rate, 1<<16-f.rate)
+			}
+			for si, S := range sizes {
+				prefills := []int{[]int{0, 1, f.rate - 1}[si%3]}
+				if ev.Thorough() {
+					prefills = []int{0, 1, f.rate - 1}
+				}
+				for _, pf := range prefills {
+					item++
+					if !ev.Mine(item) {
+						continue
+					}
+					x := &c08Inst{f: f, h: f.fresh(), shape: &strings.Builder{}}
+					err := x.write(pool[:pf])
+					if err == nil {
+						err = x.write(pool[pf : pf+S])
+					}
+					if err == nil && (si+pf)%2 == 1 {
+						err = x.write(pool[pf+S : pf+S+5])
+					}
+					if err == nil {
+						err = x.sum(nil)
+					}
+					if err != nil {
+						what := fmt.Sprintf("%s Write(%d) Write(%d) ... Sum (size thresholds): %v", f.name, pf, S, err)
+						c.Violation(what, "")
+						t.Fatalf("VF-VIOLATION: property=C08 %s", what)
+					}
+					c.Case(true, fmt.Sprintf("bigwrite|%s|%d|%d", f.name, S, pf), "bigio:"+f.name, fmt.Sprintf("bigwrite:size=%d", S))
+					nBig++
+				}
+			}
+			if f.kind == "sha3" {
+				continue
+			}
+			reads := []int{1 << 16, 1<<16 + 1, 1<<16 - 1, 1 << 20}
+			if ev.Thorough() {
+				reads = append(reads, 1<<17, 1<<17+1, 1<<20+1, 1<<20-1)
+			}
+			for ri, R := range reads {
+				item++
+				if !ev.Mine(item) {
+					continue
+				}
+				r0 := []int{0, 1, f.rate - 1}[ri%3]
+				x := &c08Inst{f: f, h: f.fresh(), shape: &strings.Builder{}}
+				err := x.write(pool[:77+ri])
+				if err == nil && r0 > 0 {
+					err = x.read(r0)
+				}
+				if err == nil {
+					err = x.read(R)
+				}
+				if err == nil {
+					err = x.read(f.rate + 1)
+				}
+				if err != nil {
+					what := fmt.Sprintf("%s Read(%d) Read(%d) (size thresholds): %v", f.name, r0, R, err)
+					c.Violation(what, "")
+					t.Fatalf("VF-VIOLATION: property=C08 %s", what)
+				}
+				c.Case(true, fmt.Sprintf("bigread|%s|%d|%d", f.name, R, r0), "bigio:"+f.name, fmt.Sprintf("bigread:size=%d", R))
+				nBig++
+			}
+		}
+		c.Exhaustive("big single Write {2^12, 2^16, 2^17 (+-1), 2^20} x pre-fill {0,1,rate-1} and big single Read {2^16 (+-1), 2^20} for all fixed functions, SHAKE, legacy Keccak and cSHAKE with 8192/8193-byte N or S", nBig)
+	}
 
 	// concurrency part: one-shot helpers and separate hash / ShakeHash objects from several goroutines at once
 	{
